@@ -161,6 +161,7 @@ struct Env {
     cfg_req: BTreeMap<String, Level>,
     unsafe_skipped: RefCell<u64>,
     moat_top: std::path::PathBuf,
+    in_aftermath: std::cell::Cell<bool>,
 }
 
 impl Env {
@@ -475,7 +476,7 @@ fn one_request(
         let p = fx.probe();
         return Ok((p.clone(), Reply::Timeout, p));
     }
-    let before = fx.probe();
+    let before = fx.probe_with(false);
     fx.set_request_clock();
     let mut reply = fx.exchange(line);
     if let Reply::Timeout = reply {
@@ -596,7 +597,7 @@ fn check_group_once(env: &Env, case: &GroupCase, probe: &mut Probe) -> Result<()
             }
         };
         let malformed_auth = matches!(cred, Cred::AuthNumber | Cred::AuthArrayOfAdmin);
-        let lvl = domain::level(cred, cfg.token_set);
+        let lvl = domain::level_with(cred, cfg.token_set, cfg.pairing_present());
         let what = describe(case, cred);
 
         let _ = take_panics();
@@ -609,9 +610,14 @@ fn check_group_once(env: &Env, case: &GroupCase, probe: &mut Probe) -> Result<()
             Reply::Line(l) => l,
             Reply::Closed => {
                 let panics = take_panics();
+                let am = aftermath(env, &mut fx, true, "a request that killed its connection");
                 env.put_back(fx, true);
                 return Err(format!(
-                    "(6) no reply: the server closed the connection. {what}\n  server panics: {panics:?}"
+                    "(6) no reply: the server closed the connection. {what}\n  server panics: {panics:?}{}",
+                    match am {
+                        Err(e) => format!("\n  AFTERMATH: {e}"),
+                        Ok(()) => "\n  aftermath: authorisation invariants still hold on a fresh connection".to_string(),
+                    }
                 ));
             }
             Reply::Timeout => {
@@ -785,6 +791,17 @@ fn check_group_once(env: &Env, case: &GroupCase, probe: &mut Probe) -> Result<()
                 return Ok(());
             }
         }
+        if matches!(case.shape.as_str(), "wrong_typed" | "huge" | "nested" | "non_object" | "null") {
+            probe.label("aftermath=after_robustness_case");
+            if let Err(e) = aftermath(env, &mut fx, false, "a robustness case") {
+                env.put_back(fx, true);
+                if e == "__timeout" {
+                    return Ok(());
+                }
+                return Err(format!("{e}\n  the case before: [{}] type {:?} params {}", cfg.key(), case.ty,
+                    cut(&case.params.as_ref().map(|p| p.to_string()).unwrap_or_else(|| "-".into()), 300)));
+            }
+        }
         env.put_back(fx, false);
     }
 
@@ -939,11 +956,16 @@ fn check_line(env: &Env, case: &LineCase, probe: &mut Probe) -> Result<(), Strin
         Reply::Line(l) => l,
         Reply::Closed => {
             let panics = take_panics();
+            let am = aftermath(env, &mut fx, true, "a line that killed its connection");
             env.put_back(fx, true);
             return Err(format!(
-                "(6) malformed line gets no reply: the server closed the connection [{}] class {} line {shown:?}\n  server panics: {panics:?}",
+                "(6) malformed line gets no reply: the server closed the connection [{}] class {} line {shown:?}\n  server panics: {panics:?}{}",
                 case.cfg.key(),
-                case.class
+                case.class,
+                match am {
+                    Err(e) => format!("\n  AFTERMATH: {e}"),
+                    Ok(()) => String::new(),
+                }
             ));
         }
         Reply::Timeout => {
@@ -1002,6 +1024,17 @@ fn check_line(env: &Env, case: &LineCase, probe: &mut Probe) -> Result<(), Strin
         }
     }
     let dirty = !changed.is_empty() || parsed.ok;
+    // (every third line, chosen by its content; every line already gets the follow-up request)
+    if !dirty && crate::engine::digest64(&case.bytes) % 3 == 0 {
+        probe.label("aftermath=after_line");
+        if let Err(e) = aftermath(env, &mut fx, false, "a malformed line") {
+            if e == "__timeout" {
+                env.put_back(fx, true);
+                return Ok(());
+            }
+            return fail(fx, e);
+        }
+    }
     env.put_back(fx, dirty);
     if !wellformed {
         let mut key = case.cfg.key().into_bytes();
@@ -1064,9 +1097,137 @@ fn send(
             }
             Ok(Sent { parsed, changed, raw })
         }
+        Reply::Closed => {
+            let panics = take_panics();
+            let am = if env.in_aftermath.get() {
+                Ok(())
+            } else {
+                aftermath(env, fx, true, "a request that killed its connection")
+            };
+            Err(format!(
+                "(6) no reply to {ty:?}: connection closed; panics {panics:?}{}",
+                match am {
+                    Err(e) => format!("\n  AFTERMATH: {e}"),
+                    Ok(()) => String::new(),
+                }
+            ))
+        }
+        Reply::Timeout => Err("__timeout".into()),
+    }
+}
+
+/// AFTERMATH: whatever happened before (a crash of the connection's thread, a robustness
+/// case, a malformed line), what later requests are allowed to do must be unchanged. On a
+/// FRESH connection: with an auth token configured (read from the state even if its mutex is
+/// poisoned) requests without a valid credential are refused and change nothing; a pairing
+/// token stands for exactly the role its store gives it; only the configured token is admin.
+/// The requests are chosen so that a correct endpoint changes nothing (the fixture stays usable).
+fn aftermath(env: &Env, fx: &mut Fixture, full: bool, why: &str) -> Result<(), String> {
+    if env.in_aftermath.get() {
+        return Ok(());
+    }
+    env.in_aftermath.set(true);
+    let r = aftermath_inner(env, fx, full, why);
+    env.in_aftermath.set(false);
+    r
+}
+
+/// A read request without the probe around it (only the reply matters); fixed, safe strings.
+fn ask(env: &Env, fx: &mut Fixture, ty: &str, auth: Option<&str>) -> Result<Sent, String> {
+    let id = env.fresh_id();
+    let mut obj = serde_json::Map::new();
+    obj.insert("id".into(), json!(id));
+    obj.insert("type".into(), json!(ty));
+    if let Some(a) = auth {
+        obj.insert("auth".into(), json!(a));
+    }
+    let line = J::Object(obj).to_string();
+    line_is_safe(line.as_bytes(), &fx.dir)?;
+    fx.set_request_clock();
+    match fx.exchange(line.as_bytes()) {
+        Reply::Line(raw) => {
+            let parsed = parse_reply(&raw).map_err(|e| format!("(6) {e}: {}", cut(&raw, 200)))?;
+            if parsed.id != Some(id) {
+                return Err(format!("(6) reply id {:?} does not answer request id {id}", parsed.id));
+            }
+            Ok(Sent { parsed, changed: Vec::new(), raw })
+        }
         Reply::Closed => Err(format!("(6) no reply to {ty:?}: connection closed; panics {:?}", take_panics())),
         Reply::Timeout => Err("__timeout".into()),
     }
+}
+
+fn aftermath_inner(env: &Env, fx: &mut Fixture, full: bool, why: &str) -> Result<(), String> {
+    fx.reconnect()
+        .map_err(|e| format!("(6) after {why} the endpoint accepts no new connection: {e}"))?;
+    let (token, poisoned) = fx.configured_token();
+    let token_set = token.is_some();
+    let cfg = fx.cfg;
+    let t = env.tpl.tokens.clone();
+    let note = if poisoned { " [the auth-token mutex is poisoned]" } else { "" };
+    // (name, auth member, standing; None = no statement)
+    let mut who: Vec<(&str, Option<String>, Option<Level>)> = Vec::new();
+    let unauth = if token_set { Some(Level::Unauth) } else { None };
+    who.push(("no credential", None, unauth));
+    who.push(("a wrong credential", Some("not-a-token-5c1d".into()), unauth));
+    let pairing = |tok: &str| -> Option<Level> {
+        let role = if cfg.pairing_present() { fx.store.validate_with_role(tok) } else { None };
+        match role {
+            Some(r) => Level::parse(r.as_str()),
+            None => unauth,
+        }
+    };
+    who.push(("the viewer pairing token", Some(t.viewer.clone()), pairing(&t.viewer)));
+    if full {
+        who.push(("the operator pairing token", Some(t.operator.clone()), pairing(&t.operator)));
+        who.push(("the engineer pairing token", Some(t.engineer.clone()), pairing(&t.engineer)));
+        who.push(("the revoked pairing token", Some(t.revoked.clone()), pairing(&t.revoked)));
+    }
+    if let Some(tok) = &token {
+        who.push(("the configured auth token", Some(tok.clone()), Some(Level::Admin)));
+    }
+    for (name, auth, standing) in who {
+        let Some(l) = standing else { continue };
+        let auth = auth.as_deref();
+        let s = ask(env, fx, "status", auth)?;
+        let served = s.parsed.class.passed_role_gate();
+        if l == Level::Unauth {
+            if served || s.parsed.ok || s.parsed.has_result || !s.changed.is_empty() {
+                return Err(format!(
+                    "(1) after {why}, on a fresh connection, status with {name} is served although an auth token is configured{note}: {}",
+                    cut(&s.raw, 200)
+                ));
+            }
+        } else if !served {
+            return Err(format!(
+                "after {why}, on a fresh connection, status with {name} (standing {l:?}) is refused{note}: {}",
+                cut(&s.raw, 200)
+            ));
+        }
+        if l < Level::Engineer {
+            let s = send(env, fx, "io.write", Some(json!({"address": "%IX0.4", "value": "true"})), auth)?;
+            if s.parsed.class.passed_role_gate() || s.parsed.ok || !s.changed.is_empty() {
+                return Err(format!(
+                    "({}) after {why}, on a fresh connection, io.write with {name} (standing {l:?}) is not refused{note}: {} changed {:?}",
+                    if l == Level::Unauth { 1 } else { 2 },
+                    cut(&s.raw, 200),
+                    s.changed
+                ));
+            }
+        }
+        if full || l == Level::Admin {
+            let s = ask(env, fx, "pair.list", auth)?;
+            let served = s.parsed.class.passed_role_gate();
+            if served != (l == Level::Admin) || !s.changed.is_empty() {
+                return Err(format!(
+                    "after {why}, on a fresh connection, pair.list (admin only) with {name} (standing {l:?}) is {}{note}: {}",
+                    if served { "served" } else { "refused" },
+                    cut(&s.raw, 200)
+                ));
+            }
+        }
+    }
+    Ok(())
 }
 
 fn check_history(env: &Env, case: &HistoryCase, probe: &mut Probe) -> Result<(), String> {
@@ -1753,13 +1914,14 @@ fn run(ctx: &mut RunCtx) {
         graveyard: RefCell::new(Vec::new()),
         cfg_req: BTreeMap::new(),
         unsafe_skipped: RefCell::new(0),
+        in_aftermath: std::cell::Cell::new(false),
         moat_top: moat().map(|m| m.top.clone()).unwrap_or_default(),
     };
     let mut env = env;
     // calibrate the parameter-dependent requirement: what does the endpoint demand for each
     // configuration key in canonical spelling (asked with the viewer token, nothing changes)
     {
-        let cfg = Cfg { token_set: true, debug_enabled: true, mode_debug: false, paused: false };
+        let cfg = Cfg { token_set: true, debug_enabled: true, mode_debug: false, paused: false, variant: 0 };
         match env.take(cfg, false) {
             Ok(mut fx) => {
                 let mut req = BTreeMap::new();
@@ -1808,6 +1970,19 @@ fn run(ctx: &mut RunCtx) {
             by_endpoint,
             uncalibrated,
             unprobed
+        ));
+        let covered = ["io_snapshot", "pending_restart", "auth_token", "audit_tx", "project_root", "historian", "pairing"];
+        let uncovered: Vec<&String> = env
+            .ex
+            .option_fields
+            .iter()
+            .map(|(n, _)| n)
+            .filter(|n| !covered.contains(&n.as_str()))
+            .collect();
+        ctx.note(format!(
+            "optional parts of ControlState in the source: {:?}; covered as configuration dimensions: auth_token (set/unset), pairing / project_root / io_snapshot (None), audit_tx / historian (Some), pending_restart (starts None); NOT covered: {:?}",
+            env.ex.option_fields.iter().map(|(n, t)| format!("{n}: {t}")).collect::<Vec<_>>(),
+            uncovered
         ));
         if env.ex.param_dependent.iter().any(|t| t != "config.set") {
             ctx.note("a request type other than config.set has a parameter-dependent requirement: its parameters are only covered by the generic spelling cases".to_string());
@@ -1877,6 +2052,38 @@ fn run(ctx: &mut RunCtx) {
                 });
             }
         }
+        // optional parts of ControlState absent/present (fixture::VARIANTS): without a pairing
+        // store and with every optional part absent, every type; for the other variants the
+        // mutating types and the reads that consult the part
+        {
+            let n0 = groups.len();
+            let reads = ["status", "config.get", "io.list", "io.read", "pair.list", "historian.query", "historian.alerts", "hmi.schema.get", "hmi.descriptor.get", "events.tail"];
+            for (variant, _) in fixture::VARIANTS.iter().filter(|(v, _)| *v != 0) {
+                let every_type = matches!(*variant, 1 | 6);
+                for token_set in [true, false] {
+                    if !token_set && !every_type {
+                        continue;
+                    }
+                    let cfg = Cfg { token_set, debug_enabled: true, mode_debug: false, paused: false, variant: *variant };
+                    for ty in &types {
+                        if !(every_type || domain::is_mutating(ty) || reads.contains(&ty.as_str())) {
+                            continue;
+                        }
+                        groups.push(GroupCase {
+                            cfg,
+                            ty: ty.clone(),
+                            schema_of: ty.clone(),
+                            shape: "valid".into(),
+                            params: domain::valid_params(ty)[0].clone(),
+                            extra: None,
+                            raw_params: None,
+                            creds: domain::GRID_CREDS.to_vec(),
+                        });
+                    }
+                }
+            }
+            ctx.note(format!("optional-part variants: {} request templates x 9 credentials", groups.len() - n0));
+        }
         ctx.note(format!("grid: {} request templates x {} credentials", groups.len(), domain::GRID_CREDS.len()));
         // robustness sweep: every member of every valid parameter object replaced by every
         // odd value / removed, sent by an administrator and by a viewer
@@ -1887,6 +2094,7 @@ fn run(ctx: &mut RunCtx) {
                 debug_enabled: true,
                 mode_debug: i % 2 == 1,
                 paused: false,
+                variant: 0,
             };
             for p in domain::odd_param_variants(ty) {
                 groups.push(GroupCase {
@@ -1906,8 +2114,8 @@ fn run(ctx: &mut RunCtx) {
         // structure; every other key in the blank/tab/NBSP spellings; every string member
         // value (addresses, targets, roles, modes, ids, codes) and member name respelt
         let n_before = groups.len();
-        let tok_cfg = Cfg { token_set: true, debug_enabled: true, mode_debug: false, paused: false };
-        let open_cfg = Cfg { token_set: false, debug_enabled: true, mode_debug: true, paused: false };
+        let tok_cfg = Cfg { token_set: true, debug_enabled: true, mode_debug: false, paused: false, variant: 0 };
+        let open_cfg = Cfg { token_set: false, debug_enabled: true, mode_debug: true, paused: false, variant: 0 };
         let mut above_engineer: BTreeSet<String> = env.ex.config_sensitive.clone();
         above_engineer.extend(env.cfg_req.iter().filter(|(_, l)| **l > Level::Engineer).map(|(k, _)| k.clone()));
         for key in env.ex.config_keys.iter() {
